@@ -40,6 +40,12 @@ def _drive(args):
                 m = {'MTI': '1240', 'PDS0001': v1, 'PDS0002': v2}
                 if (l1 + s) % 4 == 0:
                     m['PDS0003'] = 'z' * ((l1 * 7) % 40)
+                if (l1 + s) % 3 == 1:
+                    # the same boundary in the second (third) carrier: fillers of 992 characters close the carriers before
+                    m['PDS0000'] = 'f' * 992
+                    if (l1 + s) % 2:
+                        m['PDS0001'], m['PDS0002'], m['PDS0004'], m['PDS0005'] = 'g' * 992, v1, v2, m.pop('PDS0003', 'q')
+                        m.pop('PDS0003', None)
                 out.append(isocheck.roundtrip_trace(tid, m, bc, codec, bool(tid & 1),
                                                     'boundary pair: value lengths %d + %d (running length %d)' % (l1, l2, 14 + s)))
                 tid += 1
